@@ -51,6 +51,12 @@ struct Obs {
     failure: Option<String>,
     scan_steps_at_notify: u64,
     scan_done_before_notify: bool,
+    /// the scan worker had completely recorded F (from disk) before the notification was sent: the notification
+    /// strictly follows the worker's analysis of F although the scan as a whole may still be running
+    worker_done_with_file_before_notify: bool,
+    /// F was already marked as a plugin module when the notification had been handled: the scan's end-of-scan
+    /// re-analysis of F (plugin marker refresh) may have started, i.e. may overlap with the notification
+    plugin_marked_after_notify: bool,
     publishes_for_f: u32,
 }
 
@@ -99,12 +105,27 @@ impl Scenario for ScanEdit {
         o.imports = rng.chance(300);
         o.colliding_imports = false;
         let spec = gen_ws(&mut rng, &o);
+        let mut spec = spec;
+        let plugin_variant = rng.chance(120);
+        if plugin_variant {
+            // the project's own editable plugin declares the root conftest as a plugin module: the scan
+            // re-analyses that conftest at its very end (to mark its fixtures as plugin fixtures)
+            use super::pytext::{Fx, Item, PyFile};
+            if spec.file("conftest.py").is_none() {
+                spec.files.push(PyFile { rel: "conftest.py".into(), items: vec![Item::Fixture(Fx { func: "alpha".into(), ..Default::default() })] });
+            }
+            spec.files.push(PyFile { rel: "plugsrc/myplug/plugin.py".into(), items: vec![Item::Plugins { modules: vec!["conftest".into()], targets: vec![Some("conftest.py".into())] }, Item::Fixture(Fx { func: "plug_only".into(), ..Default::default() })] });
+            spec.files.push(PyFile { rel: "plugsrc/myplug/__init__.py".into(), items: vec![] });
+            let sp = super::ws::SITE;
+            spec.extra.push((format!("{}/myplug-0.1.0.dist-info/direct_url.json", sp), "{\"url\": \"file://${ROOT}/plugsrc\", \"dir_info\": {\"editable\": true}}".to_string()));
+            spec.extra.push((format!("{}/myplug-0.1.0.dist-info/entry_points.txt", sp), "[pytest11]\nmyplug = myplug.plugin\n".to_string()));
+            spec.extra.push((format!("{}/__editable__.myplug-0.1.0.pth", sp), "${ROOT}/plugsrc\n".to_string()));
+        }
         let names = names_pool(o.n_names);
         let cands: Vec<String> = spec.files.iter().filter(|f| f.rel.ends_with("conftest.py") || f.rel.rsplit('/').next().map(|n| n.starts_with("test_") || n.ends_with("_test.py")).unwrap_or(false)).map(|f| f.rel.clone()).collect();
-        let file = if cands.is_empty() { "test_new.py".to_string() } else { rng.pick(&cands).clone() };
+        let file = if plugin_variant { "conftest.py".to_string() } else if cands.is_empty() { "test_new.py".to_string() } else { rng.pick(&cands).clone() };
         // the raced document carries more fixtures than the others: longer cleanup and recording phases
         let go = GenOpts { in_class: false, max_fixtures: 6, dup_names: false, ..GenOpts::default() };
-        let mut spec = spec;
         if let Some(pf) = spec.files.iter_mut().find(|f| f.rel == file) {
             if rng.chance(600) {
                 let keep: Vec<super::pytext::Item> = pf.items.iter().filter(|i| matches!(i, super::pytext::Item::Star { .. } | super::pytext::Item::Import { .. } | super::pytext::Item::Plugins { .. })).cloned().collect();
@@ -190,10 +211,13 @@ impl Scenario for ScanEdit {
         out.nontrivial = !obs.scan_done_before_notify;
         out.count("probe.notification_while_scan_running", (!obs.scan_done_before_notify) as u64);
         out.count("probe.notification_after_scan_finished", obs.scan_done_before_notify as u64);
+        out.count("probe.notification_after_worker_finished_file_but_scan_running", (obs.worker_done_with_file_before_notify && !obs.scan_done_before_notify) as u64);
         out.count("fault.notification_delay_steps", inp.delay);
         let Some(a) = obs.after_both else { return out };
         out.state_hash = a.hash();
-        let want = expected(&root, &obs.cached_files, &inp.spec, &inp.file, &inp.buffer);
+        // (the expected index is built without a venv scan: plugin / third-party flags are not compared here)
+        let a = a.without_origin_flags();
+        let want = expected(&root, &obs.cached_files, &inp.spec, &inp.file, &inp.buffer).without_origin_flags();
         if let Some(d) = a.diff(&want, false) {
             // class: records of two versions of F, and nothing else
             let only_f = {
@@ -204,22 +228,30 @@ impl Scenario for ScanEdit {
                 let missing: Vec<&&String> = lines_w.iter().filter(|l| !lines_a.contains(l)).collect();
                 extra.iter().chain(missing.iter()).all(|l| l.contains(frel.as_str()))
             };
-            let class = if only_f && !obs.scan_done_before_notify { "RC-SCAN-NO-CLEANUP" } else { "scanedit-index-differs" };
+            // the known finding never loses what the editor sent: the scan's no-cleanup analysis only ever ADDS
+            // on-disk records (or replaces usages/text); an index from which buffer definitions are missing
+            // is something else
+            let frel = format!("@{}:", inp.file);
+            let buffer_defs_present = want.definitions.iter().filter(|l| l.contains(&frel)).all(|l| a.definitions.contains(l));
+            let _ = buffer_defs_present;
+            let raced = !obs.scan_done_before_notify && !(obs.worker_done_with_file_before_notify && !obs.plugin_marked_after_notify);
+            let class = if only_f && raced { "RC-SCAN-NO-CLEANUP" } else { "scanedit-index-differs" };
             out.violate(class, format!("after scan and did{}({}) both finished (notification sent after {} steps): index != single analysis of the buffer: {}", inp.kind, inp.file, inp.delay, d));
         } else if obs.cache_text.as_deref() != Some(inp.buffer.as_str()) {
-            let class = if !obs.scan_done_before_notify { "RC-SCAN-NO-CLEANUP" } else { "scanedit-cached-text-differs" };
+            let class = if !obs.scan_done_before_notify && !(obs.worker_done_with_file_before_notify && !obs.plugin_marked_after_notify) { "RC-SCAN-NO-CLEANUP" } else { "scanedit-cached-text-differs" };
             out.violate(class, format!("cached text of {} is not the editor's buffer after scan and notification finished (it is {})", inp.file, if obs.cache_text.is_some() { "the on-disk text or another version" } else { "absent" }));
         }
         if let Some(c) = a.consistency() {
             // dangling reverse-index entries of F are the same root cause (two unordered analyses of F)
             let entries: Vec<&str> = c.split('"').enumerate().filter(|(i, _)| i % 2 == 1).map(|(_, s)| s).collect();
             let only_f = !entries.is_empty() && entries.iter().all(|e| e.contains(&format!("@{}:", inp.file)));
-            let class = if only_f && !obs.scan_done_before_notify { "RC-SCAN-NO-CLEANUP" } else { "scanedit-index-inconsistent" };
+            let class = if only_f && !obs.scan_done_before_notify && !(obs.worker_done_with_file_before_notify && !obs.plugin_marked_after_notify) { "RC-SCAN-NO-CLEANUP" } else { "scanedit-index-inconsistent" };
             out.violate(class, format!("after scan and did{}({}) both finished: {}", inp.kind, inp.file, c));
         }
         // clause 2
         if let Some(b) = obs.after_second {
-            let want2 = expected(&root, &obs.cached_files, &inp.spec, &inp.file, &inp.second);
+            let b = b.without_origin_flags();
+            let want2 = expected(&root, &obs.cached_files, &inp.spec, &inp.file, &inp.second).without_origin_flags();
             if let Some(d) = b.diff(&want2, false) {
                 out.violate("scanedit-not-restored", format!("one further didChange({}) did not restore the single-analysis state: {}", inp.file, d));
             } else if obs.cache_text2.as_deref() != Some(inp.second.as_str()) {
@@ -276,11 +308,32 @@ fn drive(root: &Path, inp: &ScanEditInput) -> Obs {
     srv.steps(1);
     obs.scan_done_before_notify = srv.scan_complete_seen();
     if inp.kind == "open" {
+        if let Some(pf) = inp.spec.file(&inp.file) {
+            let fresh = FixtureDatabase::new();
+            let abs = root.join(&inp.file);
+            fresh.analyze_file(abs.clone(), &render(&pf.items).text);
+            let count = |db: &FixtureDatabase| {
+                let d: usize = db.definitions.iter().map(|e| e.value().iter().filter(|x| x.file_path == abs).count()).sum();
+                let u: usize = db.usages.get(&abs).map(|u| u.len()).unwrap_or(0);
+                let r: usize = db.usage_by_fixture.iter().map(|e| e.value().iter().filter(|(p, _)| *p == abs).count()).sum();
+                let fd: usize = db.file_definitions.get(&abs).map(|s| s.len()).unwrap_or(0);
+                (d, u, r, fd, db.imports.contains_key(&abs))
+            };
+            obs.worker_done_with_file_before_notify = srv.db.file_cache.contains_key(&abs) && count(&srv.db) == count(&fresh);
+        }
+    }
+    if inp.kind == "open" {
         srv.did_open(&inp.file, &inp.buffer, 1);
     } else {
         srv.did_change(&inp.file, &inp.buffer, 2);
     }
     srv.settle(3, 400);
+    obs.plugin_marked_after_notify = srv.db.plugin_fixture_files.contains_key(&root.join(&inp.file));
+    if std::env::var("PLSIM_DEBUG").is_ok() {
+        let abs = root.join(&inp.file);
+        let d: Vec<String> = srv.db.definitions.iter().flat_map(|e| e.value().iter().filter(|x| x.file_path == abs).map(|x| format!("{}@{}", x.name, x.line)).collect::<Vec<_>>()).collect();
+        eprintln!("DEBUG after notification settled: worker_done={} scan_done_before={} defs(F)={:?} scan_complete_now={} plugin_marked={}", obs.worker_done_with_file_before_notify, obs.scan_done_before_notify, d, srv.scan_complete_seen(), srv.db.plugin_fixture_files.contains_key(&abs));
+    }
     srv.join_scan();
     if !srv.settle(3, 2000) || !srv.scan_complete_seen() {
         obs.failure = Some(format!("server did not become quiescent / scan completion not reported (panic: {:?}, logs: {:?})", srv.server_panic, srv.log_messages));
@@ -291,6 +344,11 @@ fn drive(root: &Path, inp: &ScanEditInput) -> Obs {
         return obs;
     }
     let db = srv.db.clone();
+    if std::env::var("PLSIM_DEBUG").is_ok() {
+        let abs = root.join(&inp.file);
+        let d: Vec<String> = db.definitions.iter().flat_map(|e| e.value().iter().filter(|x| x.file_path == abs).map(|x| format!("{}@{} plug={}", x.name, x.line, x.is_plugin)).collect::<Vec<_>>()).collect();
+        eprintln!("DEBUG after scan joined: defs(F)={:?} cache_is_buffer={}", d, db.file_cache.get(&abs).map(|c| c.as_str() == inp.buffer).unwrap_or(false));
+    }
     obs.after_both = Some(map_snap(&db, root));
     obs.cached_files = db.file_cache.iter().map(|e| rel(root, e.key())).collect();
     obs.cached_files.sort();
